@@ -8,7 +8,8 @@ RULE = ('a real backup (backup_auto_folders + backup_container, real rsync) runs
         'while the backup is parked at one of its 6 phase boundaries (before the loose copy, after it, after the SQLite dump, after the dump '
         'transfer, after the packs copy, after the final copy): enumerated = the whole mutator at every phase boundary, (phase, mutator boundary k) pairs for k right after each index commit / pack close / before the first loose unlink and for sampled k '
         ' [first k events at the phase boundary, the rest after the backup] and two-cut triples; ~30% of the cases '
-        'are incremental on top of a previous backup. A backup that returned successfully is opened as a Container: every object that existed '
+        'are incremental on top of a previous backup (real time passes in between), ~50% have an additional long-lived reader whose open index '
+        'connection keeps SQLite from ever checkpointing the WAL. A backup that returned successfully is opened as a Container: every object that existed '
         'at backup start reads back exactly, every listed key hashes to itself, validate() is clean. Distinct = (placement plan, mutator ops, '
         'pack target, incremental).')
 ASSUMPTIONS = ['placements are at phase boundaries of the backup (the inside of one rsync run is not controlled in this tier)',
@@ -19,13 +20,13 @@ TECHNIQUE = 'runtime monitoring under a deterministic scheduler: real rsync back
 def run(ctx):
     for c in ('backups', 'backups-completed', 'placement-at-point:0', 'placement-at-point:3', 'placement-at-point:4', 'placement-at-point:5',
               'previous-backups-taken', 'placements-right-after-a-commit-or-pack-close',
-              'client-events-executed-while-the-backup-was-in-progress'):
+              'client-events-executed-while-the-backup-was-in-progress', 'sites-with-a-long-lived-reader'):
         ctx.require(c)
     n = ctx.pick(7, 120)
     cases = [{'seed': ctx.seed * 1009 + i, 'nk': ctx.pick(2, 5), 'pair_p': ctx.pick(0.3, 0.8), 'special_p': ctx.pick(0.4, 1.0), 'ntriples': ctx.pick(1, 6)} for i in range(n)]
     # one fixed scenario that is always present: a full pack+clean cycle at every phase boundary of a non-incremental and an incremental backup
-    for inc in (False, True):
-        cases.append({'seed': ctx.seed * 1009 + 5000 + int(inc), 'incremental': inc, 'target': 4 * 1024 ** 3,
+    for inc, reader in ((False, False), (True, True), (False, True)):
+        cases.append({'seed': ctx.seed * 1009 + 5000 + int(inc) + 2 * int(reader), 'incremental': inc, 'reader': reader, 'target': 4 * 1024 ** 3,
                       'mut_ops': [['add', 2], ['pack', 'no', True], ['clean'], ['direct', 1, False]],
                       'nk': ctx.pick(1, 6), 'pair_p': 1.0, 'special_p': 1.0, 'ntriples': ctx.pick(1, 6)})
     ctx.map(backuplab.run_cases, cases)
